@@ -27,6 +27,7 @@ Both are FALSE for the code as it is:
 `C11_dispatch` (through `Dispatch`) holds without any hypothesis on the history.
 -/
 import Restful.Lemmas.RegistryFresh
+import Restful.Lemmas.StateShape
 namespace Restful
 namespace Props
 open Registry
@@ -239,6 +240,12 @@ example :
   decide
 
 end Witnesses
+
+/-! The frame condition (Lemmas/StateShape.lean): the code has exactly the state this property's model
+    accounts for — no further package-level variable, struct type or field; constants as modelled. -/
+-- also: Restful.StateShape.globals_shape
+-- also: Restful.StateShape.consts_shape
+-- also: Restful.StateShape.container_shape
 
 end Props
 end Restful
